@@ -34,13 +34,14 @@ def run(ctx):
     # ---- A
     r = ctx.tlc(sdir, "Derive.tla", "MC_Derive.cfg", timeout=300, workers=4)
     ctx.require_design_ok(r, "Derive (104-byte legacy skip, randomisation from v3)")
-    for cfg, why in (("MC_Derive_skip128.cfg", "skip of 128 bytes"), ("MC_Derive_gate4.cfg", "randomisation gate at v4")):
+    for cfg, why in (("MC_Derive_skip128.cfg", "skip of 128 bytes"), ("MC_Derive_gate4.cfg", "randomisation gate at v4"),
+                     ("MC_Derive_dialerport.cfg", "client GetDstPort consulting the dialer's parameters instead of the session's")):
         rb = ctx.tlc(sdir, "Derive.tla", cfg, timeout=300, workers=4, count=False)
         if rb["inv"] != "Agreement":
             raise vlib.InfraError("broken instance (%s) should violate Agreement, got %s" % (why, rb["inv"]))
-    ctx.log("A: Derive %d tuples, agreement holds; both broken instances violate it" % r["distinct"])
+    ctx.log("A: Derive %d tuples, agreement holds; the three broken instances violate it" % r["distinct"])
     ctx.stage("A", tuples=r["distinct"], invariants=["Agreement", "OldClients443", "RandomOnlyIfSubnetAllows"],
-              nonvacuity="StationLegacySkip=128 and StationRandMinVer=4 each violate Agreement")
+              nonvacuity="StationLegacySkip=128, StationRandMinVer=4 and ClientPortSource=dialer each violate Agreement")
 
     # ---- B
     g = ctx.tlc(sdir, "Gen_Derive.tla", "Gen_Derive.cfg", timeout=300, workers=4, count=False)
